@@ -62,6 +62,14 @@ def scen_c17(r):
         c = g.emit(Op(12, 'loose', vs('int'), False, False, False, False, NONE, NONE, None, []))
         other = r.choice(cols)
         side = r.random() < 0.5
+        if r.random() < 0.25 and len(cols) >= 1:
+            # sides of different length (legal through the API): the detached column beyond the length of the other side
+            rf = g.emit(Op(15, r.choice(['>', '<', '-']), [cols[0], c] if side else [other], [other] if side else [cols[0], c],
+                           None, None, None, None, False))
+            k = g.emit(Op(80, rf))
+            sc.want(k, TNF, 'SQL of a reference with sides of different length and a detached column raises table-not-found')
+            g.emit(Op(81, rf))
+            return sc
         if r.random() < 0.4 and len(cols) >= 2:
             # composite: the detached column at any position of its side
             good = r.sample(cols, 2)
@@ -165,7 +173,27 @@ def rand_rdef(r):
     return (hs, dm)
 
 
+def scen_c16_parsed(r):
+    """the renderer classes handed to the parser configure the returned database whatever way the source is supplied"""
+    import prop_parse
+    from pyscript import parse_op
+    rdefs = [rand_rdef(r), rand_rdef(r)]
+    A, text, exp, allow = prop_parse.gen_doc(r, size=r.choice([1, 2]))
+    text = text.replace('\r', '')
+    g = gen_api.G(r)
+    sc = Scenario(g, {}, rdefs)
+    a = g.emit(parse_op(0, allow, 2, 3, text))
+    b = g.emit(parse_op(r.choice([2, 3]), allow, 2, 3, text))
+    for code, what in ((80, 'SQL'), (81, 'DBML')):
+        ka = g.emit(Op(code, a))
+        kb = g.emit(Op(code, b))
+        sc.same(kb, ka, 'a database parsed from a Path / open file renders %s through the configured renderer class, like one parsed from a string' % what)
+    return sc
+
+
 def scen_c16(r):
+    if r.random() < 0.06:
+        return scen_c16_parsed(r)
     rdefs = [rand_rdef(r) for _ in range(r.choice([0, 1, 2]))]
     n = len(rdefs)
     sqlr = r.choice([0] + list(range(2, 2 + n)) + ([1] if r.random() < 0.1 else []))
